@@ -170,6 +170,38 @@ func instrumentFile(fset *token.FileSet, af *ast.File, src []byte, pkgVars map[s
 		}
 	}
 
+	// channel operations directly inside a statement (not inside nested
+	// function literals or nested blocks, which are visited on their own)
+	chanOps := func(st ast.Stmt) {
+		var visit func(n ast.Node, top bool)
+		visit = func(n ast.Node, top bool) {
+			ast.Inspect(n, func(x ast.Node) bool {
+				switch v := x.(type) {
+				case *ast.FuncLit:
+					return false
+				case *ast.BlockStmt:
+					if !top || x != n {
+						return false
+					}
+				case *ast.SendStmt:
+					ins = append(ins, insertion{off(st.Pos()), "zzsimrt.WaitSend(" + string(src[off(v.Chan.Pos()):off(v.Chan.End())]) + "); "})
+					points++
+				case *ast.UnaryExpr:
+					if v.Op == token.ARROW {
+						ins = append(ins, insertion{off(st.Pos()), "zzsimrt.WaitRecv(" + string(src[off(v.X.Pos()):off(v.X.End())]) + "); "})
+						points++
+					}
+				}
+				return true
+			})
+		}
+		switch s := st.(type) {
+		case *ast.BlockStmt, *ast.IfStmt, *ast.ForStmt, *ast.RangeStmt, *ast.SwitchStmt, *ast.TypeSwitchStmt, *ast.SelectStmt, *ast.LabeledStmt:
+			_ = s // compound statements: their inner simple statements are visited through their own lists
+		default:
+			visit(st, true)
+		}
+	}
 	var doList func(list []ast.Stmt)
 	doList = func(list []ast.Stmt) {
 		for _, st := range list {
@@ -181,6 +213,7 @@ func instrumentFile(fset *token.FileSet, af *ast.File, src []byte, pkgVars map[s
 				ins = append(ins, insertion{off(st.Pos()), call})
 				points++
 			}
+			chanOps(st)
 		}
 	}
 	body := func(b *ast.BlockStmt) {
@@ -233,8 +266,6 @@ func instrumentFile(fset *token.FileSet, af *ast.File, src []byte, pkgVars map[s
 				note(v.Pos(), "a go statement")
 			case *ast.SelectStmt:
 				note(v.Pos(), "select")
-			case *ast.ChanType:
-				note(v.Pos(), "channels")
 			case *ast.SelectorExpr:
 				if id, ok := v.X.(*ast.Ident); ok && syncName != "" && id.Name == syncName && id.Obj == nil {
 					switch v.Sel.Name {
@@ -256,8 +287,6 @@ func instrumentFile(fset *token.FileSet, af *ast.File, src []byte, pkgVars map[s
 			switch v := x.(type) {
 			case *ast.FuncLit:
 				return false
-			case *ast.ChanType:
-				note(v.Pos(), "channels")
 			case *ast.SelectorExpr:
 				if id, ok := v.X.(*ast.Ident); ok && syncName != "" && id.Name == syncName {
 					switch v.Sel.Name {
